@@ -25,6 +25,10 @@ struct Case {
     rows: Vec<Vec<Lit>>,
     /// key values that were held by some row earlier in the history and are free now
     stale_ids: Vec<i64>,
+    /// a secondary (non-unique) index, created before or after the rows are loaded
+    index: Option<(String, bool)>,
+    /// values column c1 held earlier in the history (before an UPDATE moved the row to another key)
+    stale_c1: Vec<i64>,
 }
 
 fn create_sql(c: &Case) -> String {
@@ -50,10 +54,18 @@ fn setup(c: &Case) -> (Db, String) {
     let cs = create_sql(c);
     db.must(&cs);
     script.push_str(&format!("{};\n", cs));
+    if let Some((ix, true)) = &c.index {
+        db.must(ix);
+        script.push_str(&format!("{};\n", ix));
+    }
     for r in &c.loaded {
         let sql = format!("INSERT INTO {} SELECT {}", c.schema.table, r.iter().map(|v| v.sql()).collect::<Vec<_>>().join(", "));
         db.must(&sql);
         script.push_str(&format!("{};\n", sql));
+    }
+    if let Some((ix, false)) = &c.index {
+        db.must(ix);
+        script.push_str(&format!("{};\n", ix));
     }
     for sql in &c.pre {
         let o = db.exec(sql);
@@ -155,6 +167,31 @@ fn gen_case(r: &mut Rng) -> Case {
             stale_ids.push(old);
         }
     }
+    // one case in three: a secondary index on c1 (or (c1, id) / (c1, c2)), and history steps that move
+    // single rows from one c1 key to another (index maintenance on UPDATE: the rows that stay under
+    // the old key must remain reachable through the index)
+    let mut index = None;
+    let mut stale_c1 = vec![];
+    if r.chance(1, 3) {
+        let cols = *r.pick(&["c1", "c1", "c1, id", "c1, c2"]);
+        index = Some((format!("CREATE INDEX ix_c1 ON t ({})", cols), r.chance(1, 2)));
+        if !rows.is_empty() {
+            for _ in 0..r.range(1, 3) {
+                let i = r.below(rows.len() as u64) as usize;
+                let (id, old) = match (&rows[i][0], &rows[i][1]) {
+                    (Lit::I(id), Lit::I(old)) => (*id, *old),
+                    _ => continue,
+                };
+                let new = r.range(-2, 6);
+                if new == old {
+                    continue;
+                }
+                pre.push(format!("UPDATE t SET c1 = {} WHERE id = {}", Lit::I(new).sql(), Lit::I(id).sql()));
+                rows[i][1] = Lit::I(new);
+                stale_c1.push(old);
+            }
+        }
+    }
     // a rolled-back span: the contents stay, the storage (row order, index positions) is shaken
     let mut txn_pre = vec![];
     if !rows.is_empty() && r.chance(1, 3) {
@@ -172,7 +209,7 @@ fn gen_case(r: &mut Rng) -> Case {
         txn_pre.push("ROLLBACK TO SAVEPOINT sp".to_string());
         txn_pre.push("COMMIT".to_string());
     }
-    Case { schema, pk_type, loaded, pre, txn_pre, rows, stale_ids }
+    Case { schema, pk_type, loaded, pre, txn_pre, rows, stale_ids, index, stale_c1 }
 }
 
 /// WHERE predicate as SQL + model expression + a label; covers the fast path and its neighbours
@@ -191,6 +228,20 @@ fn gen_pred(r: &mut Rng, c: &Case) -> (String, Sx, &'static str) {
         r.range(-3, 13)
     };
     let eq = |v: i64| E::Bin(Op::Eq, Box::new(E::Col(0)), Box::new(E::Lit(Lit::I(v))));
+    if c.index.is_some() && r.chance(1, 2) {
+        // equality / range on the indexed column c1, the literal being a key that lost a row earlier
+        // in the history, a key some row holds now, or a free one
+        let v = if !c.stale_c1.is_empty() && r.chance(2, 3) {
+            *r.pick(&c.stale_c1)
+        } else if !c.rows.is_empty() && r.chance(3, 4) {
+            match &c.rows[r.below(c.rows.len() as u64) as usize][1] { Lit::I(i) => *i, _ => 0 }
+        } else {
+            r.range(-3, 7)
+        };
+        let op = *r.pick(&[Op::Eq, Op::Eq, Op::Eq, Op::Ge, Op::Le]);
+        let e = E::Bin(op, Box::new(E::Col(1)), Box::new(E::Lit(Lit::I(v))));
+        return (e.sql(&names), e.sx(), "indexed_column_vs_literal");
+    }
     match r.below(10) {
         0 | 1 => (format!("id = {}", Lit::I(some_id).sql()), eq(some_id).sx(), "pk_eq_literal"),
         2 => (format!("{} = id", Lit::I(some_id).sql()), eq(some_id).sx(), "literal_eq_pk"),
